@@ -8,6 +8,8 @@ from .. import fields, paths
 from ..core import FUNC, call_attr, calls_in, const, dotted, is_const, kwarg, norm, slice_parts, text, walk_local
 
 EXPLANATION = [
+    'C10.blob-part-size: in on_att_read_blob_request the part size is min(bearer.att_mtu - 1, remaining) (or clamped from above by that bound): a Read Blob Response never exceeds ATT_MTU.',
+    "C10.att-mtu-min: every assignment of LeCreditBasedChannel.att_mtu (other than the explicit update hook) is min(own mtu, peer mtu): both ends of an enhanced bearer use the same ATT_MTU and nothing longer than the peer's MTU is sent.",
     'C10.integer-arithmetic: no true division in the anchored modules: sizes and budgets are integers (a fractional budget admits one entry too many).',
     'C10.except-name: no name bound by `except ... as name` is read after its handler: Python deletes it when the handler ends, so the read raises UnboundLocalError exactly when the exception was caught.',
     'C10.sdu-boundary: (shared with C12) LeCreditBasedChannel.process_output closes the SDU it is assembling as soon as one queued packet has been consumed entirely: two ATT PDUs written on an enhanced bearer never share an SDU.',
@@ -625,7 +627,50 @@ def integer_arithmetic_rule(ctx):
     integer_arithmetic(ctx, 'C10.integer-arithmetic', ['bumble.gatt_server', 'bumble.att', 'bumble.gatt'])
 
 
+def att_mtu_min(ctx):
+    """The ATT_MTU of an enhanced bearer is the minimum of the two MTU fields of its L2CAP channel, on both ends: every
+    assignment of LeCreditBasedChannel.att_mtu is min(<own mtu>, <peer mtu>) (the acceptor knows both at construction)."""
+    R, p = ctx.r, ctx.p
+    rule = 'C10.att-mtu-min'
+    ci = p.cls('bumble.l2cap.LeCreditBasedChannel')
+    if ci is None:
+        R.bad(rule, 'bumble.l2cap.LeCreditBasedChannel', 'anchor missing')
+        return
+    n = 0
+    for name, fn in sorted(ci.methods.items()):
+        if name == 'on_att_mtu_update':
+            continue
+        for st in [x for x in walk_local(fn) if isinstance(x, ast.Assign) and any(dotted(t) == 'self.att_mtu' for t in x.targets)]:
+            n += 1
+            v = st.value
+            ok = isinstance(v, ast.Call) and dotted(v.func) == 'min' and len(v.args) == 2 and {norm(a).replace('self.', '') for a in v.args} == {'mtu', 'peer_mtu'}
+            R.check(ok, rule, f'bumble.l2cap.LeCreditBasedChannel.{name} | {norm(st)[:50]}', 'min(mtu, peer_mtu)', f'`{norm(st)[:60]}`: the bearer\'s ATT_MTU is not the minimum of the two MTU fields here: on the accepting side (which knows the peer\'s MTU at construction and receives no response) the server then sends PDUs longer than the peer accepts', p.loc(st))
+    R.check(n >= 1, rule, 'bumble.l2cap.LeCreditBasedChannel | att_mtu', f'{n} assignment(s)', 'no assignment of att_mtu found')
+
+
+def blob_part_size(ctx):
+    """A Read Blob Response carries at most ATT_MTU-1 value bytes: the part size is the minimum of that and what is left."""
+    R, p = ctx.r, ctx.p
+    rule = 'C10.blob-part-size'
+    fn = p.find(f'{SRV}.on_att_read_blob_request')
+    if fn is None:
+        R.bad(rule, f'{SRV}.on_att_read_blob_request', 'anchor missing')
+        return
+    from ..sym import lin, lin_eq
+    want = lin(ast.parse('bearer.att_mtu - 1', mode='eval').body)
+    sts = [x for x in walk_local(fn) if isinstance(x, ast.Assign) and dotted(x.targets[0]) == 'part_size']
+    mins = [x for x in sts if isinstance(x.value, ast.Call) and dotted(x.value.func) == 'min' and any(lin_eq(lin(a), want) for a in x.value.args)]
+    clamps = [n for n in walk_local(fn) if isinstance(n, ast.If) and any(isinstance(s_, ast.Assign) and dotted(s_.targets[0]) == 'part_size' and lin_eq(lin(s_.value), want) for s_ in n.body)]
+    from ..sym import same_ineq
+    good_clamp = [n for n in clamps if same_ineq(n.test, 'part_size > bearer.att_mtu - 1')]
+    uses = [x for x in walk_local(fn) if isinstance(x, ast.Name) and x.id == 'part_size' and isinstance(x.ctx, ast.Load)]
+    ok = bool(uses) and ((len(sts) == 1 and len(mins) == 1) or (bool(good_clamp) and len(good_clamp) == len(clamps)))
+    R.check(ok, rule, f'{SRV}.on_att_read_blob_request | part size', 'min(ATT_MTU - 1, bytes left)', 'the size of the returned part is not bounded above by ATT_MTU-1 (an inverted clamp computes the maximum): whenever more than ATT_MTU-1 bytes remain the whole rest of the value goes out in one Read Blob Response', p.loc(fn))
+
+
 RULES = [
+    ('C10.blob-part-size', blob_part_size),
+    ('C10.att-mtu-min', att_mtu_min),
     ('C10.integer-arithmetic', integer_arithmetic_rule),
     ('C10.except-name', except_name_rule),
     ('C10.sdu-boundary', sdu_boundary_rule),
